@@ -123,7 +123,7 @@ def mk_packet(rng, apid, widths, seq):
 
 def gen(rng, tier):
     cases = []
-    n = 40 if tier == "quick" else 900
+    n = 100 if tier == "quick" else 900
     for i in range(n):
         doc, layouts = rnd_doc(rng)
         files = []
